@@ -182,6 +182,10 @@ impl<'a> G<'a> {
     }
 
     fn operand(&mut self) -> Expr {
+        if self.r.chance(1, 8) {
+            // written without parentheses in a chain: `- 2 op 3` is (- 2) op 3 whatever op's precedence is
+            return un("-", lit_i(self.r.range(1, 9)));
+        }
         if self.r.chance(1, 3) {
             rf(*self.r.pick(&["a", "b", "c"]))
         } else {
